@@ -65,23 +65,32 @@ class Ctx:
         self.findings = load_findings()
 
     # ------------------------------------------------------------------ implementation / model
-    def harness(self, lines, variant_bin=None, timeout=3600):
+    def harness(self, lines, variant_bin=None, timeout=3600, env=None, stderr_sink=None):
         """Runs the native harness; a crash (signal / sanitizer abort) is a result: the line that killed the process
-        is answered `DIED rc=<code>` and the remaining lines are run in a fresh process."""
+        is answered `DIED rc=<code>` and the remaining lines are run in a fresh process.  With `stderr_sink` (a list) the
+        harness keeps its stderr open and what it wrote (sanitizer reports) is appended per process run."""
         b = variant_bin or self.bin
         res = []
         todo = list(lines)
+        argv = [os.path.join(b, "harness")] + (["--keep-stderr"] if stderr_sink is not None else [])
+        e = dict(os.environ)
+        if env:
+            e.update(env)
         while todo:
-            p = subprocess.run([os.path.join(b, "harness")], input="\n".join(todo) + "\n", stdout=subprocess.PIPE,
-                               stderr=subprocess.PIPE, text=True, timeout=timeout)
+            p = subprocess.run(argv, input="\n".join(todo) + "\n", stdout=subprocess.PIPE,
+                               stderr=subprocess.PIPE, text=True, timeout=timeout, env=e, errors="replace")
             out = p.stdout.split("\n")
             if out and out[-1] == "":
                 out.pop()
             if len(out) >= len(todo):
                 res.extend(out[:len(todo)])
+                if stderr_sink is not None and ("Sanitizer" in p.stderr or "runtime error" in p.stderr):
+                    stderr_sink.append((None, p.stderr[-6000:]))
                 break
             res.extend(out)
             res.append("DIED rc=%d" % p.returncode)
+            if stderr_sink is not None:
+                stderr_sink.append((todo[len(out)], p.stderr[-6000:]))
             todo = todo[len(out) + 1:]
         return res
 
